@@ -47,6 +47,84 @@ Theorem c11_http_sourceid_exclusive :
 Proof. exact http_sourceid_exclusive. Qed.
 Print Assumptions c11_http_sourceid_exclusive.
 
+(* back-pressure (harness which = 8): a verdict Agree / Differ on a gated history means that, whatever GOMAXPROCS,
+   the park positions, the order in which requests ran / were released and the poison steps were, every request
+   answered 200 delivered - as the controller read it AFTER its gate was released - exactly the newline split of ITS
+   OWN body, and a request whose reads all succeeded was answered 200 *)
+Theorem c11_http_gated_verdict_sound :
+  forall case obs,
+    (c11_gated_run case obs = Agree \/ exists m, c11_gated_run case obs = Differ m) ->
+    exists cfg reqs steps outs,
+      case = SL [SL cfg; SL reqs; SL steps] /\ obs = SL outs /\
+      Forall2 (fun r o =>
+        exists gz reads parks rds evs st,
+          r = SL [SZ gz; reads; SL parks] /\ as_list rd_of_sx reads = Some rds /\ o = SL [SL evs; SZ st] /\
+          (st = 200 -> no_err rds = true /\ evs = map SB (split_body (concat (chunks_of rds)))) /\
+          (st <> 200 -> no_err rds = false)) reqs outs.
+Proof. exact gated_verdict_sound. Qed.
+Print Assumptions c11_http_gated_verdict_sound.
+
+(* buffer-level model (shared heap, one pool, events are VIEWS that the controller reads when it likes).
+   Any programs that keep the discipline [wf_from] (a buffer is written, viewed and Put only while held; it is held until
+   In returned), any interleaving, any choice of sync.Pool at every Get, anybody scribbling over pooled buffers at any
+   time: a request that ran to its end delivered what it would have delivered alone *)
+Theorem c11_pool_views_stable :
+  forall (progs : nat -> list op) (sch : list sstep) (r : nat),
+    (forall r, wf_from (mk2 false false) false (progs r) = true) ->
+    let st := run_sched sch (init_st progs) in
+    prog (rq st r) = [] -> rev (outs (rq st r)) = intended (mk2 [] []) (progs r).
+Proof. exact pool_views_stable. Qed.
+Print Assumptions c11_pool_views_stable.
+
+(* processBulk / processChunk as such a program (Get, Get, ..., deferred Put, Put) keeps the discipline ... *)
+Theorem c11_http_bulk_keeps_buffers_until_in_returned :
+  forall reads, wf_from (mk2 false false) false (bulk_ops reads) = true.
+Proof. exact wf_bulk_ops. Qed.
+Print Assumptions c11_http_bulk_keeps_buffers_until_in_returned.
+
+(* ... so concurrent requests never mix bytes: under every interleaving (every request of the plugin runs
+   processBulk on its own reads, all share the pools) the controller reads, for a request that was answered,
+   exactly the events of the value-level model of THAT request's body *)
+Theorem c11_http_pool_no_alias :
+  forall (reads : nat -> list rd) (sch : list sstep) (r : nat),
+    let st := run_sched sch (init_st (fun r => bulk_ops (reads r))) in
+    prog (rq st r) = [] -> rev (outs (rq st r)) = fst (process_bulk_rd (reads r)).
+Proof. exact http_pool_no_alias. Qed.
+Print Assumptions c11_http_pool_no_alias.
+
+(* non-vacuity of the buffer-level theorems: request 0 = "a\nAA" is parked at its tail while request 1 = "BB" | "\nb\n"
+   gets a new pair of buffers, runs to its end and Puts them; request 2 = "C" then finds request 1's buffers in the pool;
+   a poison step in between.  All three run to their end and deliver their own lines. *)
+Example c11_pool_nonvacuous :
+  let reads := fun r => match r with
+                        | O => [Chunk [97;10;65;65]%N]
+                        | S O => [Chunk [66;66]%N; Chunk [10;98;10]%N]
+                        | S (S O) => [Chunk [67]%N]
+                        | _ => [] end in
+  let run := fun (n r : nat) => repeat (SRun r 0%nat) n in
+  let st := run_sched (run 7%nat 0%nat ++ run 30%nat 1%nat ++ [SPoison (fun _ => [33;33;33]%N)] ++
+                       run 30%nat 2%nat ++ run 9%nat 0%nat)
+                      (init_st (fun r => bulk_ops (reads r))) in
+  (prog (rq st 0%nat), prog (rq st 1%nat), prog (rq st 2%nat)) = ([], [], []) /\
+  rev (outs (rq st 0%nat)) = [[97]; [65;65]]%N /\ rev (outs (rq st 1%nat)) = [[66;66]; [98]]%N /\
+  rev (outs (rq st 2%nat)) = [[67]]%N /\ fresh st = 4%nat.
+Proof. vm_compute. repeat split; reflexivity. Qed.
+
+(* the model discriminates: the SEEDED variant (both buffers Put right after EOF, before the unterminated tail is
+   flushed) breaks the discipline, and there is a schedule - request 0 parked at its tail, request 1 served meanwhile on
+   the buffers request 0 just released - in which request 0's tail arrives as request 1's bytes *)
+Example c11_early_put_is_caught :
+  let a := [Chunk [97;10;65;65]%N] in
+  let b := [Chunk [66;66]%N; Chunk [10;98;10]%N] in
+  wf_from (mk2 false false) false (bulk_ops_early_put a) = false /\
+  let progs := fun r => match r with O => bulk_ops_early_put a | S O => bulk_ops b | _ => [] end in
+  let run := fun (n r : nat) => repeat (SRun r 0%nat) n in
+  let st := run_sched (run 9%nat 0%nat ++ run 5%nat 1%nat ++ run 2%nat 0%nat ++ run 30%nat 1%nat) (init_st progs) in
+  prog (rq st 0%nat) = [] /\ prog (rq st 1%nat) = [] /\
+  rev (outs (rq st 0%nat)) = [[97]; [66;66]]%N /\ fst (process_bulk_rd a) = [[97]; [65;65]]%N /\
+  rev (outs (rq st 1%nat)) = [[66;66]; [98]]%N.
+Proof. vm_compute. repeat split; reflexivity. Qed.
+
 (* non-vacuity: a body with CRLF, an empty line, a line split over three reads and no final newline *)
 Example c11_nonvacuous :
   process_bulk [[97;13]; [10;10;98]; []; [99]; [100;10;101]]%N = [[97;13]; []; [98;99;100]; [101]]%N
